@@ -31,6 +31,8 @@ pub fn gen_cfg(rng: &mut Rng, tier: Tier) -> Cfg {
         own,
         peer,
         seed: rng.below(1 << 32),
+        init_policy: None,
+        key_policy: None,
     }
 }
 
@@ -49,7 +51,8 @@ fn gen_sym(rng: &mut Rng, cfg: &Cfg) -> (String, Vec<u8>) {
     let sender = cfg.peer_channel(cfg.policy, cfg.mode);
     let mt = if rng.chance(1, 6) { MessageChunkType::CloseSecureChannel } else { MessageChunkType::Message };
     let seq = rng.below(1000) as u32 + 1;
-    let base = secured_chunk(&sender, mt, seq, seq + 7, &body(rng)).unwrap_or_else(|| {
+    let fin = [MessageIsFinalType::Final, MessageIsFinalType::Intermediate, MessageIsFinalType::FinalError][rng.weighted(&[6, 3, 1])];
+    let base = secured_chunk_f(&sender, mt, fin, seq, seq + 7, &body(rng)).unwrap_or_else(|| {
         let mut v = b"MSGF".to_vec();
         v.extend(rng.bytes(28));
         let n = v.len();
@@ -322,6 +325,367 @@ fn gen_opn(rng: &mut Rng, cfg: &Cfg, tier: Tier) -> (String, Vec<u8>) {
     (l, v)
 }
 
+// ------------------------------------------------------------------------------------------------
+// Deterministic boundary suite (round 3): emitted at the start of every generated run so that every
+// arm of the model is reached systematically, not by luck.
+
+fn base_cfg(policy: SecurityPolicy, mode: MessageSecurityMode, own: usize, peer: usize, seed: u64) -> Cfg {
+    Cfg {
+        policy,
+        mode,
+        has_cert: true,
+        has_key: true,
+        keys: policy != SecurityPolicy::None,
+        client: seed % 2 == 0,
+        own,
+        peer,
+        seed,
+        init_policy: None,
+        key_policy: None,
+    }
+}
+
+fn sized(mut v: Vec<u8>) -> Vec<u8> {
+    let n = v.len();
+    set_size(&mut v, n);
+    v
+}
+
+/// a well-formed OPN plain text (sequence header, body, padding) for `own`'s key
+fn opn_plain(pol: SecurityPolicy, signer: &KeyFix, own: &KeyFix, body: &[u8]) -> Vec<u8> {
+    let (_, _, overhead) = rsa_padding(pol);
+    let mut plain = vec![1, 0, 0, 0, 2, 0, 0, 0];
+    plain.extend_from_slice(body);
+    plain.extend(good_padding(signer.size, own.size, own.size - overhead, body.len()));
+    plain
+}
+
+fn suite(out: &mut Vec<String>) {
+    let mut seed = 1000u64;
+    let mut next = || {
+        seed += 1;
+        seed
+    };
+    // A. every policy x mode: valid MSG (F), CLO (C), MSG (A) from the real sender, and a valid OPN
+    for &policy in POLICIES.iter() {
+        for &mode in MODES.iter() {
+            let c = base_cfg(policy, mode, 0, 1, next());
+            out.push(c.reset_line());
+            let sender = c.peer_channel(policy, mode);
+            for (mt, fin) in [
+                (MessageChunkType::Message, MessageIsFinalType::Final),
+                (MessageChunkType::CloseSecureChannel, MessageIsFinalType::Intermediate),
+                (MessageChunkType::Message, MessageIsFinalType::FinalError),
+            ] {
+                if let Some(v) = secured_chunk_f(&sender, mt, fin, 5, 6, b"boundary-suite") {
+                    out.push(recv_line(&c, "suite-valid-sym", &v));
+                }
+            }
+            if policy != SecurityPolicy::None {
+                let (signer, own) = (key(c.peer), key(c.own));
+                let plain = opn_plain(policy, signer, own, b"opn");
+                let v = craft_opn(policy, signer, own, Some(policy.to_uri().as_bytes()), Some(&signer.der), Some(&own.thumb), &plain, true);
+                out.push(recv_line(&c, "suite-valid-opn", &v));
+            }
+        }
+    }
+    // B. symmetric chunk length against header + signature, both signature sizes, both modes
+    for &policy in &[SecurityPolicy::Basic256, SecurityPolicy::Basic256Sha256] {
+        for &mode in &[MessageSecurityMode::Sign, MessageSecurityMode::SignAndEncrypt] {
+            let c = base_cfg(policy, mode, 0, 1, next());
+            out.push(c.reset_line());
+            let sig = if policy == SecurityPolicy::Basic256 { 20 } else { 32 };
+            for d in [-1i64, 0, 1, 16] {
+                let n = (16 + sig + d) as usize;
+                let mut v = b"MSGF".to_vec();
+                v.resize(n, 0x5a);
+                out.push(recv_line(&c, "suite-sym-len", &sized(v)));
+            }
+            for n in [12usize, 13, 15] {
+                let mut v = b"CLOF".to_vec();
+                v.resize(n, 1);
+                out.push(recv_line(&c, "suite-sym-hdr-short", &sized(v)));
+            }
+        }
+    }
+    // C. hand-made MSG chunks with a right mac and every kind of padding (SignAndEncrypt) / Sign
+    for &policy in &[SecurityPolicy::Basic128Rsa15, SecurityPolicy::Aes256Sha256RsaPss] {
+        for &mode in &[MessageSecurityMode::SignAndEncrypt, MessageSecurityMode::Sign] {
+            let c = base_cfg(policy, mode, 0, 1, next());
+            out.push(c.reset_line());
+            let sig: usize = if policy == SecurityPolicy::Basic128Rsa15 { 20 } else { 32 };
+            // tail lengths that make (tail + sig) a multiple of 16
+            let tail_len = |blocks: usize| blocks * 16 + (16 - sig % 16) % 16;
+            let mk = |blocks: usize, pad: &[u8]| -> Vec<u8> {
+                let mut t = vec![0x11u8; tail_len(blocks) - pad.len()];
+                t.extend_from_slice(pad);
+                t
+            };
+            let pads: Vec<(&str, Vec<u8>)> = vec![
+                ("pad0", vec![0]),
+                ("pad1", vec![1, 1]),
+                ("pad5", vec![5; 6]),
+                ("pad-huge", vec![255]),
+                ("pad-bytes-bad", vec![3, 9, 3, 3]),
+            ];
+            for (name, pad) in pads {
+                if let Some(v) = craft_sym(&c, b"MSG", b'F', &mk(2, &pad), true) {
+                    out.push(recv_line(&c, &format!("suite-sym-{}", name), &v));
+                }
+            }
+            // padding length byte == everything before it (pb + 1 == padding end)
+            let t = mk(1, &[]);
+            let mut t2 = t.clone();
+            let l = t2.len();
+            t2[l - 1] = (16 + l - 1) as u8;
+            if let Some(v) = craft_sym(&c, b"MSG", b'F', &t2, true) {
+                out.push(recv_line(&c, "suite-sym-pad-eq-end", &v));
+            }
+            if let Some(v) = craft_sym(&c, b"CLO", b'F', &mk(1, &[2, 2, 2]), false) {
+                out.push(recv_line(&c, "suite-sym-badmac", &v));
+            }
+            // not block aligned
+            let mut t3 = mk(1, &[0]);
+            t3.push(0);
+            if let Some(v) = craft_sym(&c, b"MSG", b'F', &t3, true) {
+                out.push(recv_line(&c, "suite-sym-unaligned", &v));
+            }
+        }
+    }
+    // D. OPN chunks against own keys of 1024, 2048 and 4096 bits
+    for &own_id in &[0usize, 2, 4] {
+        for &policy in &[SecurityPolicy::Basic128Rsa15, SecurityPolicy::Basic256Sha256] {
+            let c = base_cfg(SecurityPolicy::None, MessageSecurityMode::None, own_id, 1, next());
+            out.push(c.reset_line());
+            let (signer, own) = (key(c.peer), key(c.own));
+            let uri = policy.to_uri().as_bytes().to_vec();
+            let good = opn_plain(policy, signer, own, b"0123456789");
+            let mut v: Vec<(&str, Vec<u8>)> = Vec::new();
+            let opn = |plain: &[u8], ok: bool| craft_opn(policy, signer, own, Some(&uri), Some(&signer.der), Some(&own.thumb), plain, ok);
+            v.push(("ok", opn(&good, true)));
+            v.push(("badsig", opn(&good, false)));
+            let mut huge = good.clone();
+            let l = huge.len();
+            huge[l - 1] = 0xff;
+            huge[l - 2] = 0xff;
+            v.push(("pad-huge", opn(&huge, true)));
+            let mut bad = good.clone();
+            if l >= 12 {
+                bad[l - 3] ^= 0x55;
+            }
+            v.push(("pad-bytes-bad", opn(&bad, true)));
+            // padding length bytes at their boundaries: 0, 1, and "everything before me"
+            let hdr_len0 = 12 + 4 + uri.len() + 4 + signer.der.len() + 24;
+            let mut body8 = vec![1u8, 0, 0, 0, 2, 0, 0, 0, 0x41, 0x42];
+            if own.size > 256 {
+                v.push(("pad-len0", opn(&[&body8[..], &[0, 0]].concat(), true)));
+                v.push(("pad-len1", opn(&[&body8[..], &[1, 1, 0]].concat(), true)));
+                let end = hdr_len0 + body8.len() + 2 - 2;
+                body8.extend_from_slice(&(end as u16).to_le_bytes());
+                v.push(("pad-eq-end", opn(&body8, true)));
+            } else {
+                v.push(("pad-len0", opn(&[&body8[..], &[0]].concat(), true)));
+                v.push(("pad-len1", opn(&[&body8[..], &[1, 1]].concat(), true)));
+            }
+            v.push(("plain-empty", opn(&[], true)));
+            v.push(("plain-tiny", opn(&[1, 2, 3], true)));
+            // several blocks
+            v.push(("blocks-many", opn(&opn_plain(policy, signer, own, &vec![7u8; 700]), true)));
+            // no cipher text at all
+            let full = opn(&good, true);
+            let hdr_len = 12 + 4 + uri.len() + 4 + signer.der.len() + 24;
+            v.push(("ct-none", sized(full[..hdr_len].to_vec())));
+            // one byte short / long, one flipped bit
+            v.push(("ct-short", sized(full[..full.len() - 1].to_vec())));
+            let mut fl = full.clone();
+            let fl_len = fl.len();
+            fl[fl_len - 5] ^= 4;
+            v.push(("ct-flip", fl));
+            for (name, bytes) in v {
+                out.push(recv_line(&c, &format!("suite-opn-{}", name), &bytes));
+            }
+        }
+    }
+    // E. OPN security-header fields: every decoding arm of each of the three fields
+    {
+        let policy = SecurityPolicy::Basic256;
+        let c = base_cfg(SecurityPolicy::None, MessageSecurityMode::None, 0, 1, next());
+        out.push(c.reset_line());
+        let (signer, own) = (key(c.peer), key(c.own));
+        let uri = policy.to_uri().as_bytes().to_vec();
+        let plain = opn_plain(policy, signer, own, b"x");
+        let f = |u: Option<&[u8]>, ce: Option<&[u8]>, t: Option<&[u8]>| craft_opn(policy, signer, own, u, ce, t, &plain, true);
+        let big = vec![0x30u8; 32767];
+        let big1 = vec![0x30u8; 32766];
+        let cases: Vec<(&str, Vec<u8>)> = vec![
+            ("uri-null", f(None, Some(&signer.der), Some(&own.thumb))),
+            ("uri-empty", f(Some(&[]), Some(&signer.der), Some(&own.thumb))),
+            ("uri-none", f(Some(SecurityPolicy::None.to_uri().as_bytes()), None, None)),
+            ("uri-unknown", f(Some(b"http://opcfoundation.org/UA/SecurityPolicy#Basic257"), Some(&signer.der), Some(&own.thumb))),
+            ("uri-utf8", f(Some(&[0x68, 0xc0, 0x80]), Some(&signer.der), Some(&own.thumb))),
+            ("cert-null", f(Some(&uri), None, Some(&own.thumb))),
+            ("cert-empty", f(Some(&uri), Some(&[]), Some(&own.thumb))),
+            ("cert-garbage", f(Some(&uri), Some(&[1, 2, 3, 4, 5]), Some(&own.thumb))),
+            ("cert-32767", f(Some(&uri), Some(&big), Some(&own.thumb))),
+            ("cert-32766", f(Some(&uri), Some(&big1), Some(&own.thumb))),
+            ("thumb-null", f(Some(&uri), Some(&signer.der), None)),
+            ("thumb-empty", f(Some(&uri), Some(&signer.der), Some(&[]))),
+            ("thumb-19", f(Some(&uri), Some(&signer.der), Some(&[9u8; 19]))),
+            ("thumb-21", f(Some(&uri), Some(&signer.der), Some(&[9u8; 21]))),
+            ("thumb-wrong", f(Some(&uri), Some(&signer.der), Some(&[9u8; 20]))),
+        ];
+        for (name, bytes) in cases {
+            out.push(recv_line(&c, &format!("suite-fld-{}", name), &bytes));
+        }
+        // UTF-8 well-formedness of the policy URI at every range boundary (valid ones are unknown policies)
+        let utf8: Vec<&[u8]> = vec![
+            &[0x7f], &[0x80], &[0xc1, 0xbf], &[0xc2, 0x7f], &[0xc2, 0x80], &[0xc2, 0xbf], &[0xc2, 0xc0], &[0xdf, 0xbf], &[0xc2],
+            &[0xe0, 0x9f, 0x80], &[0xe0, 0xa0, 0x80], &[0xe0, 0xbf, 0xbf], &[0xe0, 0xc0, 0x80], &[0xe0, 0xa0, 0x7f], &[0xe0, 0xa0, 0xc0], &[0xe0, 0xa0],
+            &[0xe1, 0x7f, 0x80], &[0xe1, 0x80, 0x80], &[0xec, 0xbf, 0xbf], &[0xec, 0xc0, 0x80],
+            &[0xed, 0x7f, 0x80], &[0xed, 0x80, 0x80], &[0xed, 0x9f, 0xbf], &[0xed, 0xa0, 0x80],
+            &[0xee, 0x80, 0x80], &[0xef, 0xbf, 0xbf], &[0xef, 0xbf, 0xc0],
+            &[0xf0, 0x8f, 0x80, 0x80], &[0xf0, 0x90, 0x80, 0x80], &[0xf0, 0xbf, 0xbf, 0xbf], &[0xf0, 0xc0, 0x80, 0x80], &[0xf0, 0x90, 0x80],
+            &[0xf1, 0x7f, 0x80, 0x80], &[0xf1, 0x80, 0x80, 0x80], &[0xf3, 0xbf, 0xbf, 0xbf], &[0xf3, 0xbf, 0x7f, 0xbf], &[0xf3, 0xbf, 0xbf, 0xc0],
+            &[0xf4, 0x7f, 0x80, 0x80], &[0xf4, 0x80, 0x80, 0x80], &[0xf4, 0x8f, 0xbf, 0xbf], &[0xf4, 0x90, 0x80, 0x80], &[0xf5, 0x80, 0x80, 0x80], &[0xff],
+        ];
+        for (i, u) in utf8.iter().enumerate() {
+            let mut uri2 = b"urn:".to_vec();
+            uri2.extend_from_slice(u);
+            uri2.push(b'!');
+            out.push(recv_line(&c, &format!("suite-utf8-{}", i), &f(Some(&uri2), None, None)));
+        }
+        // a URI of exactly max_string_length bytes is decoded (and is an unknown policy), one more is not
+        for n in [65535usize, 65536] {
+            let long = vec![b'a'; n];
+            let mut v = b"OPNF".to_vec();
+            v.extend_from_slice(&[0u8; 8]);
+            v.extend(enc_field(Some(&long)));
+            v.extend(enc_field(None));
+            v.extend(enc_field(None));
+            out.push(recv_line(&c, &format!("suite-uri-len-{}", n), &sized(v)));
+        }
+        // corrupted length prefixes of each field: negative, over the limit, longer than the chunk, cut off
+        let valid = f(Some(&uri), Some(&signer.der), Some(&own.thumb));
+        let offs = [12usize, 12 + 4 + uri.len(), 12 + 4 + uri.len() + 4 + signer.der.len()];
+        for (k, off) in offs.iter().enumerate() {
+            for (name, val) in [("neg", -2i32), ("over", 65536), ("short", 60000)] {
+                let mut v = valid.clone();
+                v[*off..*off + 4].copy_from_slice(&val.to_le_bytes());
+                out.push(recv_line(&c, &format!("suite-len{}-{}", k, name), &v));
+            }
+            out.push(recv_line(&c, &format!("suite-len{}-cut", k), &sized(valid[..*off + 2].to_vec())));
+        }
+        // header: size field, type, final flag, very short
+        for (name, sz) in [("lt", valid.len() as u32 - 1), ("gt", valid.len() as u32 + 1)] {
+            let mut v = valid.clone();
+            v[4..8].copy_from_slice(&sz.to_le_bytes());
+            out.push(recv_line(&c, &format!("suite-opn-size-{}", name), &v));
+        }
+        let msg = sized(b"MSGF\0\0\0\0\0\0\0\0\x01\0\0\0\x01\0\0\0\x01\0\0\0body".to_vec());
+        for (name, sz) in [("lt", msg.len() as u32 - 1), ("gt", msg.len() as u32 + 1)] {
+            let mut v = msg.clone();
+            v[4..8].copy_from_slice(&sz.to_le_bytes());
+            out.push(recv_line(&c, &format!("suite-sym-size-{}", name), &v));
+        }
+        let mut v = msg.clone();
+        v[0] = b'X';
+        out.push(recv_line(&c, "suite-bad-type", &v));
+        let mut v = msg.clone();
+        v[3] = b'Z';
+        out.push(recv_line(&c, "suite-bad-flag", &v));
+        out.push(recv_line(&c, "suite-hdr-short", &msg[..11]));
+        out.push(recv_line(&c, "suite-empty", &[]));
+    }
+    // E2. decoding limits changed after set-up (set_decoding_options), each limit at its boundary
+    {
+        let policy = SecurityPolicy::Basic128Rsa15;
+        let c = base_cfg(SecurityPolicy::None, MessageSecurityMode::None, 0, 1, next());
+        out.push(c.reset_line());
+        let (signer, own) = (key(c.peer), key(c.own));
+        let uri = policy.to_uri().as_bytes().to_vec();
+        let plain = opn_plain(policy, signer, own, b"lim");
+        let v = craft_opn(policy, signer, own, Some(&uri), Some(&signer.der), Some(&own.thumb), &plain, true);
+        for (a, b) in [
+            (uri.len(), signer.der.len()),
+            (uri.len() - 1, signer.der.len()),
+            (uri.len(), signer.der.len() - 1),
+            (uri.len(), 19),
+            (0, 0),
+            (65535, 65535),
+        ] {
+            out.push(format!("setlimits {} {}", a, b));
+            out.push(recv_line(&c, "suite-limits", &v));
+        }
+    }
+    // F. channels without credentials, foreign thumbprint, OPN on a secured channel
+    for (hc, hk) in [(false, true), (true, false)] {
+        let mut c = base_cfg(SecurityPolicy::None, MessageSecurityMode::None, 0, 1, next());
+        c.has_cert = hc;
+        c.has_key = hk;
+        out.push(c.reset_line());
+        let (signer, own) = (key(c.peer), key(c.own));
+        let policy = SecurityPolicy::Aes128Sha256RsaOaep;
+        let plain = opn_plain(policy, signer, own, b"y");
+        let v = craft_opn(policy, signer, own, Some(policy.to_uri().as_bytes()), Some(&signer.der), Some(&own.thumb), &plain, true);
+        out.push(recv_line(&c, "suite-opn-no-cred", &v));
+    }
+    {
+        let c = base_cfg(SecurityPolicy::Basic256Sha256, MessageSecurityMode::SignAndEncrypt, 0, 1, next());
+        out.push(c.reset_line());
+        let (signer, own) = (key(c.peer), key(c.own));
+        for policy in [SecurityPolicy::Basic256Sha256, SecurityPolicy::Basic256, SecurityPolicy::None] {
+            let plain = opn_plain(if policy == SecurityPolicy::None { SecurityPolicy::Basic256 } else { policy }, signer, own, b"z");
+            let v = if policy == SecurityPolicy::None {
+                let p3 = c.peer_channel(SecurityPolicy::None, MessageSecurityMode::None);
+                secured_chunk(&p3, MessageChunkType::OpenSecureChannel, 1, 1, b"z").unwrap_or_default()
+            } else {
+                craft_opn(policy, signer, own, Some(policy.to_uri().as_bytes()), Some(&signer.der), Some(&own.thumb), &plain, true)
+            };
+            out.push(recv_line(&c, "suite-opn-on-secured", &v));
+        }
+    }
+    // G. parameters changed after the channel was set up: mode, policy, late key derivation
+    {
+        let mut c = base_cfg(SecurityPolicy::Basic256Sha256, MessageSecurityMode::None, 0, 1, next());
+        c.init_policy = Some(c.policy);
+        c.key_policy = Some(c.policy);
+        out.push(c.reset_line());
+        for mode in [MessageSecurityMode::None, MessageSecurityMode::Sign, MessageSecurityMode::SignAndEncrypt, MessageSecurityMode::Invalid, MessageSecurityMode::Sign] {
+            out.push(format!("setmode {}", mode_name(mode)));
+            c.mode = mode;
+            let sender = c.peer_channel(c.policy, if mode == MessageSecurityMode::Invalid { MessageSecurityMode::None } else { mode });
+            if let Some(v) = secured_chunk(&sender, MessageChunkType::Message, 3, 4, b"after setmode") {
+                out.push(recv_line(&c, "suite-after-setmode", &v));
+            }
+        }
+        // same suite of symmetric algorithms, other policy name: still verifies; other suite: does not
+        for policy in [SecurityPolicy::Aes256Sha256RsaPss, SecurityPolicy::Basic256, SecurityPolicy::None, SecurityPolicy::Basic256Sha256] {
+            out.push(format!("setpolicy {}", policy_name(policy)));
+            let sender = c.peer_channel(SecurityPolicy::Basic256Sha256, MessageSecurityMode::Sign);
+            c.policy = policy;
+            if let Some(v) = secured_chunk(&sender, MessageChunkType::Message, 3, 4, b"after setpolicy") {
+                out.push(recv_line(&c, "suite-after-setpolicy", &v));
+            }
+        }
+    }
+    {
+        // mode set first, keys derived later (the order the server uses)
+        let mut c = base_cfg(SecurityPolicy::Basic128Rsa15, MessageSecurityMode::None, 2, 3, next());
+        c.keys = false;
+        c.init_policy = Some(c.policy);
+        out.push(c.reset_line());
+        let sender = c.peer_channel(c.policy, MessageSecurityMode::SignAndEncrypt);
+        let v = secured_chunk(&sender, MessageChunkType::Message, 8, 9, b"late keys").unwrap_or_default();
+        out.push(format!("setmode {}", mode_name(MessageSecurityMode::SignAndEncrypt)));
+        c.mode = MessageSecurityMode::SignAndEncrypt;
+        out.push(recv_line(&c, "suite-before-derive", &v));
+        out.push("derive".to_string());
+        c.keys = true;
+        c.key_policy = Some(c.policy);
+        out.push(recv_line(&c, "suite-after-derive", &v));
+    }
+}
+
 impl Prop for C09 {
     fn id(&self) -> &'static str {
         "C09"
@@ -329,6 +693,7 @@ impl Prop for C09 {
 
     fn gen(&self, rng: &mut Rng, n: usize, tier: Tier, out: &mut Vec<String>) {
         std::panic::set_hook(Box::new(|_| {}));
+        suite(out);
         for _ in 0..n {
             let cfg = gen_cfg(rng, tier);
             out.push(cfg.reset_line());
@@ -368,6 +733,38 @@ impl Runner for R {
                     (s, Verdict::Ok)
                 }
                 None => ("bad-op".to_string(), Verdict::Ok),
+            },
+            ["setmode", m] => match (self.me.as_mut(), parse_mode(m)) {
+                (Some(me), Some(m)) => {
+                    me.set_security_mode(m);
+                    (format!("ok p={}", policy_name(me.security_policy())), Verdict::Ok)
+                }
+                _ => ("bad-op".to_string(), Verdict::Ok),
+            },
+            ["setpolicy", p] => match (self.me.as_mut(), parse_policy(p)) {
+                (Some(me), Some(p)) => {
+                    me.set_security_policy(p);
+                    (format!("ok p={}", policy_name(me.security_policy())), Verdict::Ok)
+                }
+                _ => ("bad-op".to_string(), Verdict::Ok),
+            },
+            ["setlimits", a, b] => match (self.me.as_mut(), a.parse::<usize>(), b.parse::<usize>()) {
+                (Some(me), Ok(a), Ok(b)) => {
+                    me.set_decoding_options(opcua::types::DecodingOptions {
+                        max_string_length: a,
+                        max_byte_string_length: b,
+                        ..Default::default()
+                    });
+                    (format!("ok p={}", policy_name(me.security_policy())), Verdict::Ok)
+                }
+                _ => ("bad-op".to_string(), Verdict::Ok),
+            },
+            ["derive"] => match self.me.as_mut() {
+                Some(me) if me.security_policy() != SecurityPolicy::None => {
+                    me.derive_keys();
+                    (format!("ok p={}", policy_name(me.security_policy())), Verdict::Ok)
+                }
+                _ => ("bad-op".to_string(), Verdict::Ok),
             },
             ["recv", _label, src, ..] if toks.len() == 9 => {
                 let (Some(me), Some(src)) = (self.me.as_mut(), unhex(src)) else {
